@@ -62,6 +62,16 @@ def install():
                 pass
         return orand(self, ri, bound_m)
     RZ.Randomizer.randomize = randomize
+
+    from vsc.model.constraint_dist_scope_model import ConstraintDistScopeModel
+    ontr = ConstraintDistScopeModel.next_target_range
+
+    def next_target_range(self, randstate):
+        d = _state.setdefault("dist_scopes", {})
+        if id(self) not in d:
+            d[id(self)] = (self, list(self.weight_list), self.total_weight)
+        return ontr(self, randstate)
+    ConstraintDistScopeModel.next_target_range = next_target_range
     _installed[0] = True
 
 
@@ -704,6 +714,7 @@ def decide_call(world, spec, oi, op, q, opts, SolveFailure):
     M.MirrorBoolector.reset()
     _state["node2fm"].clear()
     _state["calls"].clear()
+    _state["dist_scopes"] = {}
     if "EVENTS" in world.ns:
         del world.ns["EVENTS"][:]
     _state["fm_paths_cb"] = world.fm_paths
